@@ -276,7 +276,10 @@ impl Request {
         }
 
         let content_length = match self.headers.get_raw(RequestHeader::ContentLength) {
-            Some(v) => unsafe {v.as_bytes()}.into_iter().fold(0, |len, b| 10*len + (*b - b'0') as usize),
+            Some(v) => unsafe {v.as_bytes()}.into_iter().try_fold(0usize, |len, b| match b {
+                b'0'..=b'9' => len.checked_mul(10)?.checked_add((*b - b'0') as usize),
+                _ => None
+            }).ok_or_else(Response::BadRequest)?,
             None    => 0,
         };
         match content_length {
@@ -401,7 +404,10 @@ impl Request {
         }
 
         let content_length = match self.headers.get_raw(RequestHeader::ContentLength) {
-            Some(v) => unsafe {v.as_bytes()}.into_iter().fold(0, |len, b| 10*len + (*b - b'0') as usize),
+            Some(v) => unsafe {v.as_bytes()}.into_iter().try_fold(0usize, |len, b| match b {
+                b'0'..=b'9' => len.checked_mul(10)?.checked_add((*b - b'0') as usize),
+                _ => None
+            }).ok_or_else(Response::BadRequest)?,
             None    => 0,
         };
         self.payload = (content_length > 0).then(||
